@@ -10,7 +10,7 @@
     T     {"fn":id} | {"wf":name}
     E     {"lit":V} | {"path":[root,k..]} | {"map":[[k,E]..]} | {"list":[E..]} | {"bad":true}
     FN    {"c":"ok"|"skip"|"depSkip"|"retry"|"permFail","d":int?,"by":key?,
-           "rf":{"prefix":s,"nameKey":s?,"calls":[s..],"pre":bool}?}
+           "rf":{"prefix":s,"nameKey":s?,"calls":[s..],"pre":bool}?,"noret":bool?,"res":bool?}
           c=ok answers {"site":id,"got":inputs}; "by":key takes the class from inputs[key] instead
           ("ok"/"skip"/"depSkip"/"retry"/"permFail"/anything else = permFail);
           rf: the class is forced before any API call when pre=true; otherwise the resource name is
@@ -97,6 +97,12 @@ structure FnSpec where
   delay : Int
   byKey : Option String
   rf : Option RfSpec
+  /-- no `return`: the Ok value is null -/
+  noret : Bool := false
+  /-- the Ok value also carries `res` = the tag of the object read (the Function's id) -/
+  showRes : Bool := false
+  /-- the Koreo resource name when it is not the id (what `resourceFunction` in a resource id says) -/
+  kname : Option String := none
 
 def toFnSpec (j : J) : Except String FnSpec := do
   let rf ← match optField j "rf" with
@@ -105,11 +111,16 @@ def toFnSpec (j : J) : Except String FnSpec := do
       let calls ← (← r.getArr "calls").mapM fun c => match c with | .str s => pure s | _ => throw "bad call"
       pure (some { pfx := ← r.getStr "prefix", nameKey := (r.getD "nameKey").str?, calls,
                    pre := ((r.getD "pre").bool?).getD false : RfSpec })
-  pure { cls := ← j.getStr "c", delay := ((j.get? "d").bind J.int?).getD 0, byKey := (j.getD "by").str?, rf }
+  pure { cls := ← j.getStr "c", delay := ((j.get? "d").bind J.int?).getD 0, byKey := (j.getD "by").str?, rf,
+         noret := ((j.getD "noret").bool?).getD false, showRes := ((j.getD "res").bool?).getD false,
+         kname := (j.getD "kname").str? }
 
-def resOf (cls : String) (d : Int) (id : String) (inputs : JVal) : StepRes :=
+def resOf (cls : String) (d : Int) (id : String) (inputs : JVal) (noret : Bool := false) (showRes : Bool := false) :
+    StepRes :=
   match cls with
-  | "ok" => .ok (.obj [("site", .str id), ("got", inputs)])
+  | "ok" =>
+    if noret then .ok .null
+    else .ok (.obj ([("site", .str id), ("got", inputs)] ++ (if showRes then [("res", .str id)] else [])))
   | "skip" => .skip
   | "depSkip" => .depSkip
   | "retry" => .retry d
@@ -131,7 +142,7 @@ def runOf (fns : List (String × FnSpec)) : RunFn := fun t inputs =>
       let cls := match f.byKey with
         | none => f.cls
         | some k => match inputKey inputs k with | some (.str s) => s | _ => "permFail"
-      let res := resOf cls f.delay id inputs
+      let res := resOf cls f.delay id inputs f.noret (f.showRes && f.rf.isSome)
       match f.rf with
       | none => ⟨res, .null, []⟩
       | some rf =>
@@ -145,7 +156,7 @@ def runOf (fns : List (String × FnSpec)) : RunFn := fun t inputs =>
           match name? with
           | none => ⟨.permFail, .null, []⟩
           | some name =>
-            ⟨res, .obj [("fn", .str id), ("name", .str name)], rf.calls.map (· ++ " " ++ name)⟩
+            ⟨res, .obj [("fn", .str (f.kname.getD id)), ("name", .str name)], rf.calls.map (· ++ " " ++ name)⟩
 
 def ofRes : StepRes → J
   | .ok v => .obj [("c", .str "ok"), ("v", ofJVal v)]
